@@ -68,7 +68,9 @@ type tblCase struct {
 var (
 	nonBMP18 = strings.Repeat("\U0001F4BE", 18) // 36 UTF-16 units
 	nonBMP36 = strings.Repeat("\U0001F4BE", 36) // 72 units: must be refused
-	gptNames = []string{"", "a", strings.Repeat("x", 36), nonBMP18, "mixé\U0001F4BEz", nonBMP36, strings.Repeat("x", 37)}
+	// (names whose UTF-16 form contains a zero byte pair that is NOT a terminator: a unit below 0x0100 followed by a unit whose
+	// low byte is zero - U+4E00, U+0100, a high surrogate D800)
+	gptNames = []string{"", "a", strings.Repeat("x", 36), nonBMP18, "mixé\U0001F4BEz", nonBMP36, strings.Repeat("x", 37), "data-\u4e00", "a\u0100b\U00010000c"}
 	gptAttrs = []uint64{0, 1, 1 << 63, ^uint64(0)}
 	gptTypes = []string{string(gpt.EFISystemPartition), string(gpt.LinuxFilesystem), "12345678-9ABC-DEF0-1234-56789ABCDEF0", "0fc63daf-8483-4772-8e79-3d69d8477de4"}
 )
